@@ -163,6 +163,11 @@ pub fn run2(c: &mut Ctx, t: &[&str]) -> Option<Out> {
       c.put(t[2], Sh::Vec(a));
       Out::Unit
     }
+    "clone_from" => {
+      let b = c.vec(t[2])?.clone();
+      *c.vec(t[1])? = b;
+      Out::Unit
+    }
     "compare" => {
       if unsafe { !crate::elem::EQ_SCRIPT.is_empty() } {
         return None;
